@@ -23,7 +23,7 @@
    hold requested (id, bytes) pairs; rows only name requested ids".  It collapses, when every
    program has run to completion, to the statement of the property. *)
 From Coq Require Import NArith List Bool.
-From DvcData Require Import Base.Val Model.Concurrent Proofs.ConcurrentProofs Proofs.ConcurrentVerify.
+From DvcData Require Import Base.Val Model.Concurrent Gen.DbAdd Proofs.ConcurrentProofs Proofs.ConcurrentVerify Proofs.ConcurrentTie.
 Import ListNotations.
 Open Scope N_scope.
 
@@ -193,3 +193,46 @@ Theorem C16_empty_workload : forall (H : bytes -> oid) (ser : list (list N * oid
   view w' (dirid (ser [])) = Some (ser [], loc).
 Proof. exact empty_workload. Qed.
 Print Assumptions C16_empty_workload.
+
+(* ---- tie to HashFileDB.add as the translator reads it on every run (Gen/DbAdd.v, unit "dbadd").
+   [g_add] interprets the generated add_order / post_body / save_over over the step machine (copies =
+   dvc_objects' probe + private temp + atomic rename).  Whatever the workload and whether or not the add
+   verifies, that program is a LEGAL writer program for a local store: copy -> [check] -> chmod -> ONE
+   state upsert at the end is the discipline all C16 theorems assume - so they apply to it. *)
+Theorem C16_generated_add_is_legal : forall verify (its : items),
+  g_add verify (map fst its) =
+    map Mkdir (map prefix (map fst its)) ++ g_copies 0 (map fst its) ++ g_post verify (map fst its) ++
+    [StateUpsert (map fst its)] /\
+  legal true its (g_add verify (map fst its)) = true.
+Proof. intros; split; [apply g_add_shape|apply g_add_legal]. Qed.
+Print Assumptions C16_generated_add_is_legal.
+
+Theorem C16_generated_add_any_schedule : forall verify wls sched w' ps',
+  consistent wls ->
+  run wls sched w0 (map (fun its => g_add verify (map fst its)) wls) = Some (w', ps') -> all_done ps' = true ->
+  good_final true wls w' /\ forall o, view w' o = expected true wls o.
+Proof.
+  intros verify wls sched w' ps' Hc Hr Hd.
+  assert (G : good_final true wls w').
+  { eapply any_schedule; eauto. apply g_add_writers_legal. }
+  split; auto. apply view_expected; auto.
+Qed.
+Print Assumptions C16_generated_add_any_schedule.
+
+(* the verification step of the extended machine is what the generated post loop says: the check comes
+   before the chmod, ObjectFormatError is REPORTED ([VerifyBad] then the remove [VerifyDrop]),
+   FileNotFoundError is PASSED ([VerifyOk] on an absent name), the pre-add check swallows both, the
+   per-call flag wins over the store's *)
+Theorem C16_generated_verify_handlers : forall o,
+  post_body true = [PCheck true; PProtect] /\ post_body false = [PProtect] /\
+  g_check o (Some ExcObjectFormat) = [VerifyBad o; VerifyDrop o] /\
+  g_check o (Some ExcFileNotFound) = [VerifyOk o] /\
+  forallb (fun e => existsb (exc_eqb e) pre_swallows) [ExcObjectFormat; ExcFileNotFound] = true /\
+  pre_runs true = true /\ pre_runs false = false /\ copy_reports = true.
+Proof. exact tie_verify_handlers. Qed.
+Print Assumptions C16_generated_verify_handlers.
+
+Theorem C16_generated_verify_flag : forall v s,
+  eff_verify (Some v) s = v /\ eff_verify None s = s /\ store_verify None = false.
+Proof. exact tie_eff_verify. Qed.
+Print Assumptions C16_generated_verify_flag.
